@@ -35,8 +35,9 @@ type value struct {
 	path    []int
 	sfield  func(i int) (value, error)
 	elems   []value
-	owned   bool // kBig: freshly allocated in this function (may be the receiver of a mutating method once)
-	nonzero bool // kBig: big.NewInt(c) with a non-zero constant c
+	bcell   *cell // kBig: the pointer denotes this in-place updated cell (its value is read from the memory state)
+	owned   bool  // kBig: freshly allocated in this function (may be the receiver of a mutating method once)
+	nonzero bool  // kBig: big.NewInt(c) with a non-zero constant c
 	cell    *cell
 }
 
@@ -87,7 +88,8 @@ func mapLeanTy(t types.Type) (string, error) {
 // function.  Its leaves that are read or written are "cells".
 type root struct {
 	name  string
-	param int // index into f.Params, -1 for a local
+	g     *ssa.Global // param == -2: the struct a package-level pointer variable points to (read only)
+	param int         // index into f.Params, -1 for a local, -2 for a package-level pointer variable
 	elem  types.Type
 	order int
 	cells map[string]*cell
@@ -100,6 +102,7 @@ type cell struct {
 	ty       types.Type
 	written  bool
 	threaded bool
+	bigVal   bool // the value of a `new(big.Int)` that is updated in place by math/big methods (Lean Int)
 }
 
 func pathKey(p []int) string {
@@ -111,6 +114,9 @@ func pathKey(p []int) string {
 }
 
 func (c *cell) leanTy() (string, error) {
+	if c.bigVal {
+		return "Int", nil
+	}
 	if si, ok := scalarOf(c.ty); ok {
 		return si.lean, nil
 	}
@@ -140,6 +146,7 @@ const (
 	sSliceLen
 	sField
 	sCell
+	sGlobalCell
 )
 
 type slot struct {
@@ -258,7 +265,7 @@ func (t *translator) translate(f *ssa.Function) (fi *fnInfo, err error) {
 	ft := &ftr{t: t, f: f, env: map[ssa.Value]value{}, tyOf: map[string]string{}, roots: map[ssa.Value]*root{},
 		joins: map[*ssa.BasicBlock]*joinDef{}, nilable: map[*ssa.Parameter]bool{}, externUsed: map[*ssa.Function]*slot{},
 		globalsUsed: map[*ssa.Global]*slot{}, fieldsUsed: map[string]*slot{}, touch: map[*ssa.BasicBlock]map[*root]bool{},
-		reach: map[*ssa.BasicBlock]map[*root]bool{}}
+		reach: map[*ssa.BasicBlock]map[*root]bool{}, bigCellOf: map[ssa.Value]*cell{}, globalRoots: map[*ssa.Global]*root{}}
 	ft.info = &fnInfo{f: f, spec: specOf(f), pos: posOf(f.Pos()), hash: srcHash(f)}
 	if err := ft.run(); err != nil {
 		return nil, err
@@ -288,8 +295,11 @@ type ftr struct {
 	paramSlots  []slot
 	touch       map[*ssa.BasicBlock]map[*root]bool
 	reach       map[*ssa.BasicBlock]map[*root]bool
-	called      []string // Lean names of the translated functions this one calls
-	declOrder   []string // names in declaration order (parameters first, then registers) for deterministic live-in lists
+	bigCellOf   map[ssa.Value]*cell // new(big.Int) and the results of in-place methods on it
+	globalRoots map[*ssa.Global]*root
+	curNow      map[*cell]ex // memory state at the instruction being translated
+	called      []string     // Lean names of the translated functions this one calls
+	declOrder   []string     // names in declaration order (parameters first, then registers) for deterministic live-in lists
 }
 
 func (ft *ftr) refuse(at ssa.Instruction, format string, a ...interface{}) error {
@@ -377,6 +387,15 @@ func (ft *ftr) resolvePtr(v ssa.Value) (*root, []int, bool) {
 		if _, ok := v.Type().(*types.Pointer); ok {
 			return ft.resolvePtr(v.X)
 		}
+	case *ssa.UnOp:
+		// *G where the package-level variable G is a pointer to a struct: a read-only root (assumed non-nil)
+		if g, ok := v.X.(*ssa.Global); ok && v.Op == token.MUL {
+			if pt, ok := v.Type().(*types.Pointer); ok && !isBigPtr(v.Type()) {
+				if _, ok := pt.Elem().Underlying().(*types.Struct); ok {
+					return ft.globalRoot(g, pt.Elem()), nil, true
+				}
+			}
+		}
 	}
 	return nil, nil, false
 }
@@ -443,6 +462,129 @@ func (ft *ftr) leafCells(r *root, path []int, t types.Type) error {
 	return nil
 }
 
+func (ft *ftr) globalRoot(g *ssa.Global, elem types.Type) *root {
+	if r, ok := ft.globalRoots[g]; ok {
+		return r
+	}
+	r := &root{name: "g_" + leanIdent(g.Pkg.Pkg.Name()) + "_" + leanIdent(g.Name()), g: g, param: -2, elem: elem, order: len(ft.rootList), cells: map[string]*cell{}}
+	ft.globalRoots[g] = r
+	ft.rootList = append(ft.rootList, r)
+	return r
+}
+
+var bigMutators = map[string]bool{"Set": true, "SetUint64": true, "SetInt64": true, "Add": true, "Sub": true, "Mul": true, "Div": true,
+	"Mod": true, "Quo": true, "Rem": true, "Neg": true, "Abs": true}
+
+func bigMutatorCall(ins ssa.Instruction) (*ssa.Call, bool) {
+	c, ok := ins.(*ssa.Call)
+	if !ok || c.Call.IsInvoke() {
+		return nil, false
+	}
+	f, _ := c.Call.Value.(*ssa.Function)
+	if f == nil || f.Pkg == nil || f.Pkg.Pkg.Path() != "math/big" || f.Signature.Recv() == nil || !bigMutators[f.Name()] || len(c.Call.Args) == 0 {
+		return nil, false
+	}
+	return c, true
+}
+
+// bigCells: every new(big.Int) is a cell holding an Int that math/big methods update in place; the result of such a method is the
+// receiver, i.e. the same cell.  A cell that flows into a φ-node or into a call of a module function is read there as a value
+// (a snapshot): that is only sound if the cell is not updated afterwards, which is checked here.
+func (ft *ftr) bigCells() error {
+	f := ft.f
+	for _, b := range f.Blocks {
+		for _, ins := range b.Instrs {
+			if a, ok := ins.(*ssa.Alloc); ok && isBigInt(a.Type().(*types.Pointer).Elem()) {
+				r := ft.newRoot(a, a.Name(), -1, a.Type().(*types.Pointer).Elem())
+				c := &cell{root: r, name: a.Name() + "_v", ty: a.Type(), bigVal: true, threaded: true}
+				r.cells[""] = c
+				ft.bigCellOf[a] = c
+			}
+		}
+	}
+	if len(ft.bigCellOf) == 0 {
+		return nil
+	}
+	for changed := true; changed; {
+		changed = false
+		for _, b := range f.Blocks {
+			for _, ins := range b.Instrs {
+				if c, ok := bigMutatorCall(ins); ok {
+					if cl := ft.bigCellOf[c.Call.Args[0]]; cl != nil && ft.bigCellOf[c] == nil {
+						ft.bigCellOf[c] = cl
+						changed = true
+					}
+				}
+			}
+		}
+	}
+	type point struct {
+		b *ssa.BasicBlock
+		i int
+	}
+	muts := map[*cell][]point{}
+	for _, b := range f.Blocks {
+		for i, ins := range b.Instrs {
+			if c, ok := bigMutatorCall(ins); ok {
+				if cl := ft.bigCellOf[c.Call.Args[0]]; cl != nil {
+					muts[cl] = append(muts[cl], point{b, i})
+				}
+			}
+		}
+	}
+	var reachable func(from *ssa.BasicBlock, seen map[*ssa.BasicBlock]bool)
+	reachable = func(from *ssa.BasicBlock, seen map[*ssa.BasicBlock]bool) {
+		for _, s := range from.Succs {
+			if !seen[s] {
+				seen[s] = true
+				reachable(s, seen)
+			}
+		}
+	}
+	check := func(cl *cell, b *ssa.BasicBlock, i int, at ssa.Instruction, what string) error {
+		after := map[*ssa.BasicBlock]bool{}
+		reachable(b, after)
+		for _, m := range muts[cl] {
+			if (m.b == b && m.i > i) || after[m.b] {
+				return ft.refuse(at, "the big.Int %s is updated in place (`%s`) after its pointer was %s: aliasing is not modelled", cl.name, m.b.Instrs[m.i], what)
+			}
+		}
+		return nil
+	}
+	for _, b := range f.Blocks {
+		for i, ins := range b.Instrs {
+			switch ins := ins.(type) {
+			case *ssa.Phi:
+				for k, e := range ins.Edges {
+					if cl := ft.bigCellOf[e]; cl != nil {
+						// the φ reads the cell at the end of predecessor k
+						pb := b.Preds[k]
+						if err := check(cl, pb, len(pb.Instrs), ins, "merged by a φ-node"); err != nil {
+							return err
+						}
+					}
+				}
+			case *ssa.Call:
+				if _, isMut := bigMutatorCall(ins); isMut {
+					continue
+				}
+				callee := ft.staticCallee(&ins.Call)
+				if callee != nil && callee.Pkg != nil && callee.Pkg.Pkg.Path() == "math/big" {
+					continue // reading methods / NewInt
+				}
+				for _, a := range ins.Call.Args {
+					if cl := ft.bigCellOf[a]; cl != nil {
+						if err := check(cl, b, i, ins, "passed to "+ins.Call.Value.Name()); err != nil {
+							return err
+						}
+					}
+				}
+			}
+		}
+	}
+	return nil
+}
+
 func (ft *ftr) touchRoot(b *ssa.BasicBlock, r *root) {
 	if ft.touch[b] == nil {
 		ft.touch[b] = map[*root]bool{}
@@ -489,6 +631,9 @@ func (ft *ftr) prepass() error {
 			}
 		}
 	}
+	if err := ft.bigCells(); err != nil {
+		return err
+	}
 	// nil-able big parameters: compared with nil here, or handed to a nil-able parameter of a callee (computed below, after
 	// the callees have been translated)
 	for _, b := range f.Blocks {
@@ -533,6 +678,9 @@ func (ft *ftr) prepass() error {
 					return ft.refuse(ins, "heap write through a pointer that is neither a parameter nor a local variable")
 				}
 				ft.touchRoot(b, r)
+				if r.param == -2 {
+					return ft.refuse(ins, "write to memory reached through the package-level variable %s", r.g.Name())
+				}
 				if _, isStruct := ins.Val.Type().Underlying().(*types.Struct); isStruct {
 					if r.param >= 0 {
 						return ft.refuse(ins, "whole-struct store through a pointer parameter is outside the grammar")
@@ -564,6 +712,16 @@ func (ft *ftr) prepass() error {
 					return ft.refuse(ins, "callee refused: %v", err)
 				}
 				for _, s := range ci.slots {
+					if s.kind == sGlobalCell {
+						st, _ := s.g.Type().(*types.Pointer).Elem().(*types.Pointer)
+						if st == nil {
+							return ft.refuse(ins, "internal: global cell of %s", s.g.Name())
+						}
+						if _, err := ft.cellAt(ft.globalRoot(s.g, st.Elem()), s.path); err != nil {
+							return ft.refuse(ins, "%v", err)
+						}
+						continue
+					}
 					if s.param < 0 || s.param >= len(common.Args) {
 						continue
 					}
@@ -595,7 +753,7 @@ func (ft *ftr) prepass() error {
 	for _, r := range ft.rootList {
 		for _, k := range sortedCellKeys(r) {
 			c := r.cells[k]
-			c.threaded = r.param < 0 || c.written
+			c.threaded = r.param == -1 || c.written
 			ft.cells = append(ft.cells, c)
 		}
 	}
